@@ -10,7 +10,10 @@ pub(crate) fn repr_div<const B: Word>(&self, lhs: Repr<B>, rhs: Repr<B>) -> Roun
         // call; all callers establish it: Context::div shrinks lhs first, the operators pass operands that fit)
         ndigits(B as int, lhs.significand.v()) <= self.precision + ndigits(B as int, rhs.significand.v()),
         // machine ranges (overflow of usize/isize is outside this contract)
-        self.precision < 0x1000_0000_0000_0000, ndigits(B as int, rhs.significand.v()) < 0x1000_0000_0000_0000,
+        // resource limit: exponent overflow is a documented panic (C16), not modelled: precision and digit counts below
+        // 2^56 keep the digit shifts (<= digits + precision) within `pos_room` (bit position `pos * log2(B)` in usize)
+        // and leave `Repr::new` room for the exponent
+        self.precision < 0x100_0000_0000_0000, ndigits(B as int, rhs.significand.v()) < 0x100_0000_0000_0000,
         -0x1000_0000_0000_0000 < lhs.exponent < 0x1000_0000_0000_0000, -0x1000_0000_0000_0000 < rhs.exponent < 0x1000_0000_0000_0000,
     ensures
         // C03 for division
@@ -36,7 +39,8 @@ pub(crate) fn repr_div<const B: Word>(&self, lhs: Repr<B>, rhs: Repr<B>) -> Roun
 
         let (mut q, mut r) = lhs.significand.div_rem(&rhs.significand);
         let mut e = lhs.exponent - rhs.exponent;
-        /*@ proof { lemma_quot_size(b, N, D, q.v(), r.v(), p + dd, dd); assert(((p + dd) - dd + 1) as nat == p + 1); } @*/
+        /*@ proof { lemma_quot_size(b, N, D, q.v(), r.v(), p + dd, dd); assert(((p + dd) - dd + 1) as nat == p + 1);
+                    lemma_ndigits_le(b, q.v(), p + 1); } @*/
         if r.is_zero() {
             return Approximation::Exact(Repr::new(q, e));
         }
@@ -107,6 +111,10 @@ pub(crate) fn repr_div<const B: Word>(&self, lhs: Repr<B>, rhs: Repr<B>) -> Roun
             assert(is_trunc_divrem(N * ipow(b, j), D, q.v(), r.v()));
             assert(e == e0 - j);
             assert(ipow(b, (p - 1) as nat) <= iabs(q.v()) && iabs(q.v()) < ipow(b, p + 1));
+            // room for the exponent of the result (Repr::new below): q, q +- 1 have at most p + 2 digits
+            lemma_ndigits_le_pow(b, q.v(), p + 1);
+            lemma_ndigits_le_pow(b, q.v() + 1, p + 1);
+            lemma_ndigits_le_pow(b, q.v() - 1, p + 1);
         } @*/
 
         if r.is_zero() {
